@@ -1,0 +1,11 @@
+//go:build verif
+// +build verif
+
+package io
+
+// Machine-checked contracts for the serialization package (comment-only file).
+
+// Convert is used by the RPC layer as an opaque conversion: it may fail, it may panic on a type
+// it cannot handle (callers recover), it does not touch the caller's state.
+//@ func Convert
+//@   havoc
